@@ -19,6 +19,8 @@ CLAIM = (
     "0/unbounded; (4) PROPS: _define_properties emits one element per property the class specifies itself (the documented exclusion: "
     "inherited ones), marks only Optional properties minOccurs=0, and appends every element to the returned sequence; the class group "
     "references the group of every parent; the choice group offers the class itself (if concrete) and every concrete descendant."
+    " SKIPS: the loops of the functions in scope have no more `continue`, `break` or in-loop `return` statements than the reference "
+    "read on the unchanged tree (baselines/skips.json): a new skip means elements that were handled are no longer handled."
 )
 NOTE = (
     "Not decided: the verdict of a validator on a mutated document (runtime). Documented exclusions of the property: tightenings by "
@@ -51,6 +53,13 @@ def run(ctx) -> None:
         if m.name.startswith(f"{PKG}.infer_for_schema"):
             for f in m.functions.values():
                 stack.check_stack_order(ctx, f, "STACK-ORDER")
+    ctx.rule("SKIPS", "the loops of the functions in scope have no more continue/break/return-in-loop statements than the reference read on the unchanged tree", floor=5)
+    from ..rules import skips as _skips
+    _base = _skips.load_baseline()
+    for _m in ctx.p.modules.values():
+        if _m.name == "aas_core_codegen.xsd.main" or _m.name.startswith("aas_core_codegen.infer_for_schema"):
+            for _f in _m.functions.values():
+                _skips.check_skips(ctx, _f, "SKIPS", _base)
 
 
 def check_src(ctx) -> None:
